@@ -134,6 +134,7 @@ func init() {
 		conserve.C08(p, r)
 		conserve.ConcatOffset(p, r) // Regions.Locate concatenates the slices of the segments
 		conserve.NoEarlyExit(p, r, core.PkgGts, "Regions.Resize", "for", "the walks that carry the offsets across the segments")
+		conserve.LocWhole(p, r)
 		r.Rule("DEDUP-EXACT", "a membership helper of package main (shape func([]T, T) bool) decides membership by reflect.DeepEqual or == of the element and the candidate, nothing coarser (gts extract drops repeated regions with it: two different regions must both be extracted)", 1)
 		conserve.DedupExact(p, r)
 	})
